@@ -248,6 +248,19 @@ static void roundTrip(vh::Reporter& rep, const std::string& cls, const T& x, Q&&
         }
         g_phase = cls + ":repack";
     }
+    if constexpr (std::is_same_v<T, EclipseState>) {
+        // the same for the parts of an EclipseState that have their own operator==
+        g_phase = cls + ":member-wise";
+        std::string bad;
+#define C11_G(e) if (!(x.e == y.e)) bad += #e " ";
+        C11_G(getIOConfig()) C11_G(getInitConfig()) C11_G(getSimulationConfig()) C11_G(getFaults()) C11_G(getTransMult()) C11_G(getInputNNC())
+        C11_G(getTableManager()) C11_G(getEclipseConfig()) C11_G(gridDims()) C11_G(getLgrs()) C11_G(getTitle()) C11_G(runspec()) C11_G(aquifer())
+        C11_G(tracer()) C11_G(getMICPpara()) C11_G(getWagHysteresis())
+#undef C11_G
+        rep.count("eclipsestate_member_comparisons", 16);
+        if (!bad.empty()) rep.violation("member-differs-after-roundtrip:EclipseState", "part(s) " + bad + "of the EclipseState compare unequal after the round trip", witness);
+        g_phase = cls + ":repack";
+    }
     // a third, independently written observer for the Schedule: upstream's own getter based notion of equivalence
     if constexpr (std::is_same_v<T, Schedule>) {
         g_phase = cls + ":Schedule::cmp";
